@@ -42,7 +42,6 @@ SYNTAX = {
     'constants': "a: `1` `'s'` `x{y}` ```multi\nline``` ^`alert` ^^^`three` `True` ;\n",
     'meta': "a: @int @uint @float @bool @name ;\n",
     'meta-call': "a: @int b @name b @bool ;\n\nb: 'x' ;\n",
-    'meta-call': "a: @int b @name b @bool ;\n\nb: 'x' ;\n",
     'comments': "(* pascal *)\n/* c style */\n# eol\n// eol2\na: 'x' (* inner *) 'y' # trailing\n ;\n",
     'choices': "a:\n  | 'x'\n  | 'y' 'z'\n  | ()\n;\n",
     'choices-leading-bar': "b: | 'x' | 'y' ;\n",
